@@ -287,7 +287,7 @@ func randomFilter(r *rand.Rand) (am.FilterFunc, map[int]bool) {
 			fs = append(fs, am.FilterType(types[t]))
 			acc[t] = true
 			if isIface(t) {
-				for c := 0; c < nConcrete; c++ {
+				for c := 0; c < len(types); c++ {
 					if implements(c, t) {
 						acc[c] = true
 					}
